@@ -109,17 +109,7 @@ Theorem repair_rewrite_kill_refuted : exists (H : bytes -> N) (disk : bytes) (m 
   (exists acked tl, acked <> [] /\ recover_store H disk = Ok (acked, tl)) /\
   (m < length (repair H disk))%nat /\
   summarize (recover_store H (firstn m (repair H disk))) = summarize (Ok ([], TAll)).
-Proof.
-  exists exH, ex_crashed,
-    (lrec_size (LFrame (hd (mk_frame exH (exP 0) 0 0 0 (1, [])) (w_frames ex_t1)))).
-  split; [|split].
-  - destruct (recover_store exH ex_crashed) as [[acked tl]|e] eqn:E.
-    + exists acked, tl. split; [|reflexivity]. intros ->.
-      pose proof (proj1 repair_kill_witness) as W. rewrite E in W. vm_compute in W. discriminate.
-    + pose proof (proj1 repair_kill_witness) as W. rewrite E in W. vm_compute in W. discriminate.
-  - vm_compute. reflexivity.
-  - exact (proj2 (proj2 repair_kill_witness)).
-Qed.
+Proof. exact repair_kill_exists. Qed.
 Check repair_rewrite_kill_refuted : exists (H : bytes -> N) (disk : bytes) (m : nat),
   (exists acked tl, acked <> [] /\ recover_store H disk = Ok (acked, tl)) /\
   (m < length (repair H disk))%nat /\
